@@ -65,6 +65,7 @@ class Ctx(object):
         self.distinct_enum = 0
         self.samples = []
         self.violations = []
+        self.per_key = {}
         self.known_seen = {}
         self.exhaustive = {}
         self.notes = {}
@@ -128,9 +129,15 @@ class Ctx(object):
         '''
         v = dict(key=key, what=what, case=case, shard=self.shard)
         v.update(extra)
-        self.violations.append(v)
         self.count('violations')
-        if len(self.violations) >= self.MAX_VIOLATIONS:
+        # at most three records per mechanism key; the workload goes on (a known finding that
+        # shows up often must not starve the rest of the check), unless many different
+        # mechanisms fail
+        n = self.per_key.get(key, 0)
+        self.per_key[key] = n + 1
+        if n < 3:
+            self.violations.append(v)
+        if len(self.per_key) >= 12:
             raise Stop()
 
     def set_exhaustive(self, name, bound, n):
@@ -151,7 +158,7 @@ class Ctx(object):
         return dict(counters=self.counters, monitors=self.monitors,
                     evaluations=self.evaluations,
                     distinct=sorted(self.distinct), distinct_enum=self.distinct_enum, samples=self.samples,
-                    violations=self.violations, exhaustive=self.exhaustive,
+                    violations=self.violations, violation_counts=self.per_key, exhaustive=self.exhaustive,
                     notes=self.notes, wall=time.time() - self.t0)
 
 
